@@ -78,8 +78,8 @@ def run(ctx):
         ctx.ob("C09.G.word-variant-not-skipped", f.key, "bare-word variant predicate reads `skip`", "skip" in reads,
                "F20: the predicate selecting the bare-word variant reads only %s of the variant: a variant marked `skip` and `word` becomes the bare-word value" % sorted(reads))
     # ------------------------------------------------------------ arm templates
-    for name, arms in (("variant::UnitMatchArm<'_>", {"unit": r"is_unit\(self\.0\.data\)=True", "newtype": r"is_newtype\(self\.0\.data\)=True"}),
-                       ("variant::DataMatchArm<'_>", {"unit": r"is_unit\(self\.0\.data\)=True", "struct": r"is_struct\(self\.0\.data\)=True", "newtype": r"is_newtype\(self\.0\.data\)=True"})):
+    for name, arms in (("variant::UnitMatchArm<'_>", {"unit": r"^discr\(self\.0\.data\.style\)=Unit$", "newtype": r"is_newtype\(self\.0\.data\)=True"}),
+                       ("variant::DataMatchArm<'_>", {"unit": r"^discr\(self\.0\.data\.style\)=Unit$", "struct": r"^discr\(self\.0\.data\.style\)=Struct$", "newtype": r"is_newtype\(self\.0\.data\)=True"})):
         f = ctx.fn(common.TOK % name)
         if not f:
             continue
@@ -117,7 +117,7 @@ def run(ctx):
             if kind in arms:
                 ctx.ob("C09.G.arm-for-own-style", f.key, "%s arm" % kind, bool(pcs) and all(ctx._sat(d, arms[kind]) for d in pcs), "%s arm emitted under %s" % (kind, [sorted(d) for d in pcs]))
             elif kind == "other":
-                ok = all(ctx._sat(d, r"is_unit\(self\.0\.data\)=False") and ctx._sat(d, r"is_newtype\(self\.0\.data\)=False") for d in pcs)
+                ok = all(ctx._sat(d, ("ne", r"^discr\(self\.0\.data\.style\)$", "Unit")) and ctx._sat(d, r"is_newtype\(self\.0\.data\)=False") for d in pcs)
                 ctx.ob("C09.G.arm-for-own-style", f.key, "non-unit non-newtype string arm rejects", ok, "under %s" % [sorted(d) for d in pcs])
             else:
                 ctx.ob("C09.G.arm-for-own-style", f.key, "unrecognised arm", False, txt[:200])
